@@ -96,6 +96,9 @@ type CPU interface {
 	TriggerIRQ()
 	SetInterrupt(v byte)
 	Disasm() string
+	// SwapBus moves the CPU to another bus with the same memory behind it, where the implementation has a bus pointer
+	// that callers may assign (false otherwise).
+	SwapBus() bool
 	// Fork returns a CPU created with InitFrom from this one (same state, same memory object);
 	// the fork of a fork is the original object again, re-initialised from the fork.
 	Fork() CPU
@@ -161,6 +164,27 @@ type Primary struct {
 	Bus   *bus.Bus
 	proxy *memProxy
 	fork  *Primary
+	// the bus this CPU is not on at the moment (SwapBus), and the proxy behind it
+	spareBus   *bus.Bus
+	spareProxy *memProxy
+}
+
+// SwapBus puts the CPU on another bus by assigning the exported CPU.Bus field; the same memory is behind the new
+// bus, and the bus that was replaced from now on answers from a different memory (whoever still talks to it reads other
+// bytes and loses its writes).  LoadRaw keeps the CPU on the bus it is on.
+func (p *Primary) SwapBus() bool {
+	if p.spareBus == nil {
+		p.spareBus, _ = bus.New()
+		p.spareProxy = &memProxy{M: NewMem(0)}
+		attachFlat(p.spareBus, p.spareProxy)
+	}
+	m := p.proxy.M
+	p.Bus, p.spareBus = p.spareBus, p.Bus
+	p.proxy, p.spareProxy = p.spareProxy, p.proxy
+	p.proxy.M = m
+	p.spareProxy.M = NewMem(0x0BADB055)
+	p.C.Bus = p.Bus
+	return true
 }
 
 func (p *Primary) Fork() CPU {
@@ -318,6 +342,7 @@ func (p *Alt) LoadRaw(r Raw) {
 	c.Bus.M = 0
 }
 func (p *Alt) SoftLoadRaw(r Raw) { p.LoadRaw(r) }
+func (p *Alt) SwapBus() bool     { return false } // (cpualt's bus is part of the CPU value)
 func (p *Alt) Raw() Raw {
 	c := p.C
 	return Raw{RA: c.RA, RX: c.RX, RY: c.RY, RAh: c.RAh, RAl: c.RAl, RXl: c.RXl, RYl: c.RYl,
